@@ -11,6 +11,8 @@ C11-magic reaches them; the other obligations exclude such names).
 """
 from __future__ import annotations
 
+import glob as _real_glob
+
 from typing import List
 
 from oracles import glob_ref
@@ -64,7 +66,15 @@ def glob(pattern, *, root_dir=None, dir_fd=None, recursive=False, include_hidden
 
 
 class _GlobModule:
+    """Stands in for the `glob` module inside find_paths: `glob` / `iglob` answer from UNIVERSE, the pure string helpers are the real ones."""
     glob = staticmethod(glob)
+
+    @staticmethod
+    def iglob(pattern, **kw):
+        return iter(glob(pattern, **kw))
+
+    has_magic = staticmethod(_real_glob.has_magic)
+    escape = staticmethod(_real_glob.escape)
 
 
 def install() -> None:
